@@ -307,6 +307,22 @@ where
             }
             untracked(|| "ret done".to_string())
         }
+        OpKind::ValuesNth(k) => match it.values().nth(*k) {
+            Some(x) => {
+                let v = x.val();
+                x.forget();
+                untracked(|| format!("ret value {}", v))
+            }
+            None => untracked(|| "ret end".to_string()),
+        },
+        OpKind::IdsValuesNth(k) => match it.ids_and_values().nth(*k) {
+            Some((i, x)) => {
+                let v = x.val();
+                x.forget();
+                untracked(|| format!("ret item {} {}", i, v))
+            }
+            None => untracked(|| "ret end".to_string()),
+        },
         OpKind::Skip => {
             it.skip_to_end();
             untracked(|| "ret unit".to_string())
